@@ -38,6 +38,10 @@ func main() {
 	defer w.Close()
 	seed := vc.Seed()
 	r := vc.NewRand(seed)
+	if len(os.Args) > 2 && os.Args[2] == "ws" {
+		wsStreams(w, r)
+		return
+	}
 	dur := time.Duration(vc.Scale(6, 150)) * time.Second
 	w.Current(vc.L{"mixed concurrent workload", int64(seed), int64(dur / time.Second)})
 
